@@ -311,6 +311,11 @@ func btcTx(i int, item string) btcjson.TxRawResult {
 	switch f[0] {
 	case "n":
 		tx.Vout = []btcjson.Vout{pay("tb1qln69zuhdunc9stwfh6t7adexxrcr04ppy6thgm", "witness_v0_keyhash", 5000)}
+	case "u":
+		tx.Vout = []btcjson.Vout{
+			{ScriptPubKey: btcjson.ScriptPubKeyResult{Type: btcListener.OP_RETURN, Hex: string(unhx(f[1]))}},
+			pay("tb1qln69zuhdunc9stwfh6t7adexxrcr04ppy6thgm", "witness_v0_keyhash", u64(f[2])),
+		}
 	case "t", "f", "m":
 		fee := uint64(1000)
 		if f[0] == "f" {
@@ -678,6 +683,72 @@ func genC06(g *G) {
 			}
 		}
 	}
+	// hostile length words that would be giant allocation sizes, at every length-word position of every handler, between good
+	// deposits for other destinations — in a memory-bounded child process (iso): the range must survive and deliver the rest
+	goodE := func(d int) string { return "d:1:" + itoa(d) + ":" + next() + ":" + goodCDx + ":-" }
+	goodS := func(d int) string { return "d:" + itoa(d) + ":" + next() + ":" + goodCDx + ":0" }
+	dws := dangerWords()
+	if !g.Thorough() {
+		dws = []*big.Int{dws[g.Intn(2)], dws[2+g.Intn(3)], dws[5], dws[6+g.Intn(3)]}
+	}
+	for _, w := range dws {
+		ww := w32(w)
+		hostile := []string{
+			"d:1:5:" + next() + ":" + hx(cat(w32u(1), ww, make([]byte, 64))) + ":-",                      // erc20 recipient length
+			"d:1:5:" + next() + ":" + hx(cat(w32u(1), w32u(20), make([]byte, 20), ww, make([]byte, 40))) + ":-", // erc20 fee word (harmless)
+			"d:2:5:" + next() + ":" + hx(cat(w32u(1), ww, make([]byte, 64))) + ":-",                      // erc721 recipient length
+			"d:2:5:" + next() + ":" + hx(cat(w32u(1), w32u(20), make([]byte, 20), ww, make([]byte, 40))) + ":-", // erc721 metadata length
+			"d:3:5:" + next() + ":" + hx(cat(ww, w32u(160), w32u(192), w32u(224), make([]byte, 128))) + ":-",     // erc1155 offset
+			"d:3:5:" + next() + ":" + hx(cat(w32u(128), w32u(160), w32u(192), w32u(224), ww, make([]byte, 128))) + ":-", // erc1155 vector length
+			"d:4:5:" + next() + ":" + hx(cat(ww, []byte{0xff, 0xff}, make([]byte, 80))) + ":-",             // generic (2-byte length field)
+		}
+		for _, hItem := range hostile {
+			xs := joinOr([]string{goodE(2), hItem, goodE(3), goodE(2)}, ";")
+			g.Emit("iso", "hevm", xs)
+			if g.Thorough() || g.Intn(3) == 0 {
+				g.Emit("iso", "retry1", xs)
+			}
+		}
+		subH := "d:5:" + next() + ":" + hx(cat(w32u(1), ww, make([]byte, 64))) + ":0"
+		g.Emit("iso", "hsub", joinOr([]string{goodS(2), subH, goodS(3)}, ";"))
+		g.Emit("iso", "subretry", joinOr([]string{goodS(2), subH, goodS(3)}, ";"))
+	}
+	// Bitcoin: arbitrary nulldata scripts (any opcode after OP_RETURN, several pushes, OP_PUSHDATA1/2/4, truncated pushes) in a
+	// transaction of the block — whether or not it pays the bridge — between good deposits; child process with a deadline
+	goodB := func(d int) string {
+		return "t:" + opReturnHex("0x"+hex.EncodeToString(g.Bytes(20))+"_"+itoa(d)) + ":" + itoa(1000+g.Intn(1000))
+	}
+	scripts := []string{"6a5d0800c0a23303e80701", "6a51", "6a4c00", "6a4d0400deadbeef", "6a4e04000000deadbeef", "6a0401020304610162", "6a4f", "6a6a6a", "6aff", "6a4c05", "6a00"}
+	nb := g.Count(40, 800)
+	for i := 0; i < nb; i++ {
+		var sc string
+		if i < len(scripts) {
+			sc = scripts[i]
+		} else {
+			b := []byte{0x6a}
+			for k := 0; k < 1+g.Intn(4); k++ {
+				switch g.Intn(5) {
+				case 0:
+					b = append(b, byte(0x4c+g.Intn(0xb4))) // any opcode ≥ OP_PUSHDATA1
+				case 1:
+					n := g.Intn(20)
+					b = append(append(b, byte(n)), g.Bytes(n)...)
+				case 2:
+					n := g.Intn(20)
+					b = append(append(b, 0x4c, byte(n)), g.Bytes(g.Intn(n+1))...)
+				case 3:
+					txt := []byte("0x" + hex.EncodeToString(g.Bytes(20)) + "_" + itoa(1+g.Intn(4)))
+					b = append(append(b, byte(len(txt))), txt...)
+				default:
+					b = append(b, g.Bytes(1+g.Intn(6))...)
+				}
+			}
+			sc = hex.EncodeToString(b)
+		}
+		kind := []string{"t", "t", "u"}[g.Intn(3)] // u: the script sits in a transaction that does not pay the bridge
+		item := kind + ":" + hx([]byte(sc)) + ":" + itoa(1000+g.Intn(1000))
+		g.Emit("iso", "hbtc", joinOr([]string{goodB(2), item, goodB(3)}, ";"))
+	}
 	retry2Item := func() string {
 		switch g.Intn(8) {
 		case 0:
@@ -689,7 +760,7 @@ func genC06(g *G) {
 			return "v:" + itoa(1+g.Intn(4)) + ":" + itoa(1+g.Intn(4)) + ":" + next()
 		}
 	}
-	n := g.Count(300, 14000)
+	n := g.Count(300, 9000)
 	for i := 0; i < n; i++ {
 		ev := list(g.Intn(7), func() string { return evmItem(false) })
 		g.Emit("hevm", ev)
